@@ -243,7 +243,12 @@ def loaded_column_scripts(ctx):
         S = ["load %s" % path, "point %s" % X(b"NEWPT")]
         S += ["smut 0 pt %d 42280000 42280000 42280000 00000000" % np_, "dump"]
         if nch and nsub: S += ["analog %s" % X(b"NEWCH"), "smut 1 ch 0 %d 42280000" % nch, "dump"]
-        S += ["point %s" % X(b"NEWPT2"), "smut %d pt 0 3f800000 3f800000 3f800000 3f800000" % (nfr - 1), "dump", "save @W@/lc.c3d", "load @W@/lc.c3d"]
+        S += ["point %s" % X(b"NEWPT2"), "smut %d pt 0 3f800000 3f800000 3f800000 3f800000" % (nfr - 1), "dump"]
+        # the column declared by name came from ONE dummy point / channel copied into every frame: renaming it in one stored frame
+        # must not rename it anywhere else
+        S += ["smut 0 ptname %d %s" % (np_, X(b"RENAMED")), "dump"]
+        if nch and nsub: S += ["smut 1 chname 0 %d %s" % (nch, X(b"RENAMEDC")), "dump"]
+        S += ["save @W@/lc.c3d", "load @W@/lc.c3d"]
         out.append((S, {"loaded_column_%dp_%dc" % (min(np_, 1), min(nch, 1)): 1}, "loaded-column-%d" % i))
     return out
 
@@ -308,9 +313,16 @@ def loaded_declare_scripts(ctx, n):
     for i in range(n):
         seed = ctx.seed * 4409 + 300000 + i
         path = os.path.join(d, "decl%d.c3d" % i)
-        desc, _ = c3dgen.make_file(seed, path, frac=(i % 4 == 1))
+        desc, content = c3dgen.make_file(seed, path, frac=(i % 4 == 1))
+        # a POINTS-ONLY frame carrying exactly the file's labels (no sub-frame at all: nothing of it concerns the ANALOG group)
+        pid_ = content["groups"][0][0]
+        labs = [p_[5] for p_ in content["params"] if p_[0] == pid_ and p_[1] == b"LABELS"]
+        used = [p_[5][0] for p_ in content["params"] if p_[0] == pid_ and p_[1] == b"USED"]
+        ponly = []
+        if labs and used and 0 < used[0] <= len(labs[0]):
+            ponly = ["mkframe w %s -" % ";".join("%s:3f800000:40000000:40400000:00000000" % gen.xhex(bytes(n).rstrip(b" ")) for n in labs[0][:used[0]]), "frame w", "dump"]
         L = ["# input: python3 -c \"from vlib import c3dgen; c3dgen.make_file(%d, '%s', frac=%s)\"" % (seed, path, i % 4 == 1),
-             "dumpmode full" if i % 3 == 0 else "dumpmode shape", "load %s" % path, "point x4e4557", "dump", "analog x4e45574348", "dump", "point x4e4557", "save @W@/d.c3d", "load @W@/d.c3d"]
+             "dumpmode full", "load %s" % path, "cpframe v 0", "frame v", "dump"] + ponly + ["point x4e4557", "dump", "analog x4e45574348", "dump", "point x4e4557", "save @W@/d.c3d", "load @W@/d.c3d"]
         out.append((L, {"loaded_declare": 1}, "loaded-declare-%d-%s" % (seed, desc)))
     return out
 
@@ -1136,6 +1148,25 @@ def c16_bases(ctx, wd):
         desc, _ = c3dgen.make_file(ctx.seed * 101 + i, q)
         bases.append(("gen-" + desc, q))
     if not ctx.quick: bases.append(("optotrak", "/repo/test/c3dFiles/Optotrak.c3d"))
+    # files with exactly 4 and 8 analog samples per frame: a point count of -1 / -2 then makes the byte size of a frame wrap to 0
+    import random, struct
+    F = lambda v: struct.unpack("<I", struct.pack("<f", v))[0]
+    for np_, nch, nsub, nfr in ((1, 2, 2, 2), (2, 4, 2, 2)):
+        r = random.Random(ctx.seed * 31 + nch)
+        L_ = c3dgen.Layout(r); L_.lead_zeros = 0; L_.zero_prologue = False; L_.param_block = 2; L_.order = "groups_first"; L_.sparse_ids = False; L_.extra_blocks = 0; L_.pad_byte = 0x20
+        groups = [(1, b"POINT", False, b""), (2, b"ANALOG", False, b"")]
+        params = [(1, b"USED", False, "I", [], [np_], b""), (1, b"SCALE", False, "F", [], [F(-1.0)], b""), (1, b"RATE", False, "F", [], [F(100.0)], b""),
+                  (1, b"DATA_START", False, "I", [], [0], b""), (1, b"FRAMES", False, "I", [], [nfr], b""),
+                  (1, b"LABELS", False, "C", [2, np_], [b"P%d" % k for k in range(np_)], b""),
+                  (2, b"USED", False, "I", [], [nch], b""), (2, b"RATE", False, "F", [], [F(100.0 * nsub)], b""),
+                  (2, b"LABELS", False, "C", [2, nch], [b"C%d" % k for k in range(nch)], b""),
+                  (2, b"SCALE", False, "F", [nch], [F(1.0)] * nch, b""), (2, b"OFFSET", False, "I", [nch], [0] * nch, b""), (2, b"GEN_SCALE", False, "F", [], [F(1.0)], b"")]
+        header = dict(points=np_, analog_per_frame=nch * nsub, first=1, last=nfr, gap=0, scale=F(-1.0), subframes=nsub, rate=F(100.0), events=[])
+        frames = [([[c3dgen.fbits(r) for _ in range(4)] for _ in range(np_)], [[c3dgen.fbits(r) for _ in range(nch)] for _ in range(nsub)]) for _ in range(nfr)]
+        q = os.path.join(wd, "samples%d.c3d" % (nch * nsub))
+        b_, ds_ = c3dgen.encode(dict(groups=groups, params=params, header=header, frames=frames), L_, r)
+        bb = bytearray(b_); k_ = bb.find(b"DATA_START"); bb[k_ + 14:k_ + 16] = struct.pack("<H", ds_); open(q, "wb").write(bytes(bb))
+        bases.append(("samples%d" % (nch * nsub), q))
     return bases
 
 def c16_field_positions(b):
@@ -1199,6 +1230,29 @@ def c16(ctx):
         # random garbage and zero files
     if ctx.quick and len(mutants) > 6000:
         keep = set(r.sample(range(len(mutants)), 6000)); mutants = [m for i, m in enumerate(mutants) if i in keep]
+    # whole 16-bit words at once: header words 2..10 and the value of every integer scalar (POINT:USED = -1, -2, -4: counts that
+    # wrap a byte size to exactly 0, or turn negative) - single-byte overwrites never produce them
+    import struct as _st2
+    for tag, path in bases:
+        b = open(path, "rb").read()
+        wpos = []
+        try:
+            z = 0
+            while b[z] == 0: z += 1
+            wpos += [z + 2 * w for w in range(1, 10)]
+            p_ = z + 512 * (b[z] - 1) + 4
+            for _ in range(400):
+                n_ = _st2.unpack_from("b", b, p_)[0]
+                if n_ == 0: break
+                gid = _st2.unpack_from("b", b, p_ + 1)[0]
+                o = p_ + 2 + abs(n_); off = _st2.unpack_from("<H", b, o)[0]
+                if gid > 0 and _st2.unpack_from("b", b, o + 2)[0] == 2 and b[o + 3] == 0: wpos.append(o + 4)
+                if off == 0: break
+                p_ = o + off
+        except Exception: pass
+        for wp in wpos:
+            for v in (0xFFFF, 0xFFFE, 0xFFFC, 0x8000, 0x7FFF):
+                if wp + 2 <= len(b): mutants.append(("%s-word-%d-%04x" % (tag, wp, v), b[:wp] + _st2.pack("<H", v) + b[wp + 2:]))
     # dimension blasts: every record's dimension bytes set to 0xFF (all / all but the first / first 0 and the rest 0xFF)
     import struct as _st
     for tag, path in bases:
